@@ -389,6 +389,7 @@ def main(argv=None):
         return replay_file(a.replay)
     if not a.property:
         ap.error("property id required")
+    os.environ["VERIF_TIER"] = a.tier  # the command-line tier wins; worker processes and drivers read the variable
     return check_property(a.property, a.tier, seed, a.jobs)
 
 
